@@ -422,6 +422,24 @@ def judgePkgVars (vs : List (String × String × List (String × String))) : Str
   | some v => s!"fail:unguarded-global:{v.1} ({v.2.1}) is written by {((v.2.2.filter fun w => !writerGuarded w).map (·.1)).headD ""} without protection"
   | none => "ok"
 
+/-- round 6: a package-level variable of a COMPONENT package (`components/…`: providers, guns, their decoders, templaters,
+pre- and postprocessors) is one object for every pool of the process — whatever it caches or counts is shared by pools
+that have nothing to do with each other (two pools whose ammo files use the same scenario and request names …). The
+types reviewed as harmless there: error values, a `sync.Once` of an import function, a `sync.Pool`, the frozen jsoniter
+configuration. Anything else (a templater, a cache, a component instance used as a default) is reported. -/
+def componentVarTypesReviewed : List String := ["error", "*sync.Once", "*sync.Pool", "jsoniter.API"]
+
+/-- `components/…` (a prefix test the kernel can evaluate) -/
+def inComponents (name : String) : Bool := name.toList.take 11 == "components/".toList
+
+def componentVarOk (v : String × String × List (String × String)) : Bool :=
+  !inComponents v.1 || componentVarTypesReviewed.contains v.2.1
+
+def judgeComponentVars (vs : List (String × String × List (String × String))) : String :=
+  match vs.find? (fun v => !componentVarOk v) with
+  | some v => s!"fail:process-wide-component:{v.1} ({v.2.1}) is ONE object for every pool of the process: what it caches or counts is shared by all providers / guns built from that package"
+  | none => "ok"
+
 /-! ### reference flows on the instance-facing side of the http provider (`Gen.Locks.ammoFlows`) -/
 
 /-- a regenerated row: (function, kind of reference, class of destination, destination, source) -/
